@@ -412,6 +412,9 @@ func c19Fixed(c *C) {
 			return
 		}
 	}
+	if !c19DeepParams(c) {
+		return
+	}
 	// an argument that cannot be evaluated fails the execution - in {{ }} chains and in the filter tag, first or later
 	// filter of the chain, with autoescape on and off
 	for _, inner := range []string{
@@ -521,12 +524,135 @@ func c19Fixed(c *C) {
 	c.Cover("fixed_precedence_scope_registry")
 }
 
+// c19DeepExpr builds an expression that mentions the name `x` somewhere DEEP inside (behind filters with arguments, list
+// literals, call arguments, parentheses, operators) together with its value as a function of x's value. Every form is
+// built from pieces whose meaning the fixed list above pins one by one.
+func c19DeepExpr(r *Rng, depth int) (string, func(x string) string) {
+	if depth <= 0 {
+		return "x", func(x string) string { return x }
+	}
+	// a form that may stand where a filter PARAMETER is expected (a name, a call, a subscript - no filter chain of its own)
+	asParam := func() (string, func(x string) string) {
+		if r.Bool() {
+			return "x", func(x string) string { return x }
+		}
+		s, v := c19DeepExpr(r, depth-1)
+		return "ident(" + s + ")", v
+	}
+	switch r.Intn(8) {
+	case 0:
+		s, v := asParam()
+		return "\"pre-\"|add:" + s, func(x string) string { return "pre-" + v(x) }
+	case 1:
+		s, v := c19DeepExpr(r, depth-1)
+		return "[" + s + ", \"k\"]|join:\"+\"", func(x string) string { return v(x) + "+k" }
+	case 2:
+		s, v := c19DeepExpr(r, depth-1)
+		return "ident(" + s + ")", v
+	case 3:
+		s, v := asParam()
+		return "\"lit\"|vprobe_a:" + s, func(x string) string { return "a(lit:" + v(x) + ")" }
+	case 4:
+		s, v := c19DeepExpr(r, depth-1)
+		return "(" + s + ")", v
+	case 5:
+		s, v := c19DeepExpr(r, depth-1)
+		return "(\"<\" + " + s + " + \">\")", func(x string) string { return "<" + v(x) + ">" }
+	case 6:
+		s, v := c19DeepExpr(r, depth-1)
+		return "[" + s + "]|first", v
+	default:
+		s, v := c19DeepExpr(r, depth-1)
+		return "[\"z\", " + s + "]|last", v
+	}
+}
+
+// c19DeepParamCase: a filter parameter (list literal or call) whose items mention a name deep inside is evaluated in
+// the current scope at EVERY application - in every iteration of a loop, in every call of a macro and in every
+// execution of the compiled template (an argument that "looks constant" at its top level is not constant).
+func c19DeepParamCase(c *C, r *Rng) bool {
+	s, v := c19DeepExpr(r, 1+r.Intn(3))
+	var param string
+	var want func(x string) string
+	if r.Bool() {
+		param, want = "[\"h\", "+s+"]|join:\",\"", func(x string) string { return "h," + v(x) }
+		if r.Bool() {
+			param, want = "["+s+", \"t\"]|join:\",\"", func(x string) string { return v(x) + ",t" }
+		}
+	} else {
+		param, want = "ident("+s+")", v
+	}
+	base := r.Pick([]string{"\"\"|default:", "nv|default_if_none:", "undefinedname|default:"})
+	use := "{{ " + base + param + " }}"
+	form := r.Intn(4)
+	var src, exp string
+	xs := []string{"x", "y", "z"}
+	switch form {
+	case 0:
+		src = "{% for x in lv %}" + use + ";{% endfor %}"
+		for _, x := range xs {
+			exp += want(x) + ";"
+		}
+	case 1:
+		src = "{% macro dm(x) %}" + use + "{% endmacro %}{{ dm(\"one\") }}|{{ dm(\"two\") }}|{{ dm(p) }}"
+		exp = want("one") + "|" + want("two") + "|" + want("outer")
+	case 2:
+		src = "{% with x=\"w1\" %}" + use + "{% endwith %}|{% with x=p %}" + use + "{% endwith %}"
+		exp = want("w1") + "|" + want("outer")
+	default:
+		src = use
+	}
+	full := "{% autoescape off %}" + src + "{% endautoescape %}"
+	if form == 3 {
+		// one compiled template, several executions with different values of the name
+		set, _ := newSet(emptySetFiles)
+		tpl, err := set.FromString(full)
+		c.Eval(1)
+		if err != nil {
+			c.Fail("compile-error", D{"source": src, "error": err.Error()})
+			return false
+		}
+		for i, x := range []string{"first", "second", "first", "third"} {
+			ctx := c19Ctx()
+			ctx["x"] = x
+			out, xerr := execSpread(tpl, ctx, uint64(i)+r.U64()%4)
+			c.Eval(1)
+			if xerr != nil || out != want(x) {
+				c.Fail("precedence-or-scope", D{"source": src, "execution": i, "x": x, "output": q(out), "expected": q(want(x)), "error": errStr(xerr), "why": "a filter parameter is evaluated in the current scope at every application; one compiled template executed with different contexts"})
+				return false
+			}
+		}
+	} else {
+		out, cerr, xerr := renderString(full, c19Ctx())
+		c.Eval(1)
+		if cerr != nil || xerr != nil || out != exp {
+			c.Fail("precedence-or-scope", D{"source": src, "output": q(out), "expected": q(exp), "error": errStr(cerr) + errStr(xerr), "why": "a filter parameter is evaluated in the current scope at every application (loop iteration, macro call, with block)"})
+			return false
+		}
+	}
+	c.Cover(fmt.Sprintf("deep_parameter_form_%d", form))
+	c.Nontrivial("deepparam:" + src)
+	return true
+}
+
+func c19DeepParams(c *C) bool {
+	for i := 0; i < 400; i++ {
+		if !c19DeepParamCase(c, c.R) {
+			return false
+		}
+	}
+	return true
+}
+
 func c19Run(c *C) {
 	if c.Idx == 0 {
 		c19Fixed(c)
 		return
 	}
 	r := c.R
+	if !c19DeepParamCase(c, r) {
+		return
+	}
 	probesOnly := r.Chance(45)
 	for k := 0; k < 10; k++ {
 		ch := c19RandChain(r, probesOnly, 4)
